@@ -45,6 +45,7 @@ fn id_pair(ln1: usize, lv1: usize, ln2: usize, lv2: usize) {
     kani::stub(<fnv::FnvHasher as std::hash::Hasher>::write, fnv_write_injective))]
 pub fn c15_id_boundary_shift_21_vs_12() {
     id_pair(2, 1, 1, 2);
+    vcover!(true, "end of harness reached");
 }
 /// id: name "xy" + empty value  vs  name "x" + value "y".
 #[cfg_attr(kani, kani::proof, kani::unwind(6),
@@ -53,6 +54,7 @@ pub fn c15_id_boundary_shift_21_vs_12() {
     kani::stub(<fnv::FnvHasher as std::hash::Hasher>::write, fnv_write_injective))]
 pub fn c15_id_boundary_shift_20_vs_11() {
     id_pair(2, 0, 1, 1);
+    vcover!(true, "end of harness reached");
 }
 /// id: same shape (2-byte name, 2-byte value): equal exactly when all bytes are equal.
 #[cfg_attr(kani, kani::proof, kani::unwind(6),
@@ -61,6 +63,7 @@ pub fn c15_id_boundary_shift_20_vs_11() {
     kani::stub(<fnv::FnvHasher as std::hash::Hasher>::write, fnv_write_injective))]
 pub fn c15_id_same_shape_22() {
     id_pair(2, 2, 2, 2);
+    vcover!(true, "end of harness reached");
 }
 
 /// id with two const labels: independent of insertion order and of map iteration order; values
@@ -94,6 +97,7 @@ pub fn c15_id_two_const_labels_order_independent() {
     assert!(d1.const_label_pairs.len() == 2 && d1.const_label_pairs[0].name() == "k" && d1.const_label_pairs[1].name() == "l", "C15 const label pairs sorted by name");
     std::mem::forget(d1);
     std::mem::forget(d2);
+    vcover!(true, "end of harness reached");
 }
 
 fn vl(names: &[&str]) -> Vec<String> {
@@ -141,6 +145,7 @@ pub fn c15_dim_hash_variable_label_sets() {
     dim_pair(&["x", "y"], false, &["y", "x"], false, true);
     dim_pair(&["x"], false, &["y"], false, false);
     dim_pair(&["x"], false, &["x", "y"], false, false);
+    vcover!(true, "end of harness reached");
 }
 /// dim_hash: a const label x is not a variable label x; same const-name set with different
 /// values keeps the signature (and changes the identity).
@@ -152,6 +157,7 @@ pub fn c15_dim_hash_const_vs_variable() {
     dim_pair(&[], true, &["x"], false, false);
     dim_pair(&["y"], true, &["y"], true, true);
     dim_pair(&[], true, &[], false, false);
+    vcover!(true, "end of harness reached");
 }
 
 /// id with two const labels where one value is empty: ("", v) and (w, "") are told apart (the
@@ -174,6 +180,7 @@ pub fn c15_id_empty_value_position() {
     assert!(d1.dim_hash == d2.dim_hash, "C15 same help and label names give the same dimension signature");
     std::mem::forget(d1);
     std::mem::forget(d2);
+    vcover!(true, "end of harness reached");
 }
 
 pub fn dispatch(name: &str) -> Option<fn()> {
